@@ -131,7 +131,7 @@ def close6(a, b):
 
 class C13(Check):
     pid = "C13"
-    lean_modules = ["MTProps.C13", "MTProps.CodeCli"]
+    lean_modules = ["MTProps.C13", "MTProps.CodeCli", "MTProps.CodeWriters"]
 
     def body(self):
         rng = self.rng
